@@ -61,6 +61,8 @@ def cases(rng, tier):
             c['sitedtypes'] = [rng.choice(['real', 'complex', 'int' if c['entries'] == 'int' else 'real']) for _ in range(c['L'])]
         elif u < 0.30:
             c['mag'] = rng.choice([-30, -24, -20, -10, 20])
+        if rng.random() < 0.2:
+            c['layout'] = rng.randrange(1, 4)
     # the replayed subset (correspondence inside Coq): small enough for exact rational arithmetic
     left = NREPLAY[tier]
     left_c = NREPLAY_CHARGED[tier]
@@ -103,6 +105,9 @@ def build(case):
     if case.get('mag'):
         f = 2.0 ** case['mag']
         obj.A = [a * f for a in obj.A]
+    if case.get('layout'):
+        # site tensors in other memory layouts (Fortran order, non-contiguous views, negative strides)
+        obj.A = [G.relayout(a, case['layout'] + i) for i, a in enumerate(obj.A)]
     return obj
 
 
